@@ -44,7 +44,7 @@ _PLACEHOLDER = re.compile(r"\x00AC\d+\x00")
 
 class C12(Prop):
     id = "C12"
-    once_kinds = ("growth", "nest")
+    once_kinds = ("growth", "nest", "deepnest")
     level = "exploration"
     rule = ("cases: (a) strings of 1..60 atoms drawn from 100 hostile atoms (delimiters, control characters, line-end mixes, "
             "container markers, tag / comment / footnote openers, NUL and a literal placeholder look-alike) x random option "
@@ -75,6 +75,9 @@ class C12(Prop):
             yield {"kind": "codews", "seed": r.getrandbits(40), "opts": rand_opts(r)}
         if shard == 0:
             yield {"kind": "nest", "depths": [14, 16, 18, 20, 22]}
+        if shard == 1:
+            # nesting deeper than the interpreter's recursion limit allows (listed finding KF-C12-recursion-limit)
+            yield {"kind": "deepnest"}
         fams = sorted(FAMILIES)
         for fi, f in enumerate(fams):
             if fi % nshards == shard:
@@ -99,6 +102,26 @@ class C12(Prop):
 
     def check(self, case, col: Collector):
         getattr(self, "_check_" + case["kind"])(case, col)
+
+    def _check_deepnest(self, case, col):
+        docs = {"list-100": "".join("  " * i + "- x\n" for i in range(100)),
+                "list-250": "".join("  " * i + "- x\n" for i in range(250)),
+                "emphasis-300": "_a " * 300 + "b" + " c_" * 300 + "\n",
+                "emphasis-700": "_a " * 700 + "b" + " c_" * 700 + "\n",
+                "brackets-800": "x " + "[a " * 800 + "](u) " * 800 + "\n"}
+        for name, text in docs.items():
+            col.case()
+            col.mon("growth")
+            out = fm.fmt(text, width=88)
+            col.distinct("deepnest", name)
+            if isinstance(out, fm.Raised):
+                depth = int(name.split("-")[1])
+                # listed mechanism: marko's parser and flowmark's renderer recurse once per nesting level
+                desc = ("C12/raised/RecursionError/nesting-deeper-than-the-recursion-limit" if out.kind == "RecursionError" and depth >= 200
+                        else f"C12/raised/{out.kind}/{out.where}")
+                col.violation("growth", desc, dict(case, doc=name), out.text[:300])
+            elif not out.endswith("\n"):
+                col.violation("growth", "C12/no-final-newline", dict(case, doc=name), out[-40:])
 
     def _check_soup(self, case, col):
         col.case()
